@@ -1,8 +1,9 @@
 CONSTANTS MaxOps = 6
           ResyncOnChange = TRUE
+          DocCacheByText = FALSE
           LintMemo = FALSE
 INIT JInit
 NEXT JNextIgnoreList
 VIEW NoHist
-INVARIANTS AnswerIsCurrent IgnoredStayHidden
+INVARIANTS AnswerIsCurrent IgnoredStayHidden PromisedHidden
 CHECK_DEADLOCK FALSE
